@@ -1,3 +1,3 @@
 -- Model driver for property C01.
-import GojaModel.C01.Driver
-def main : IO Unit := GojaModel.C01.Driver.main
+import GojaModel.C01.Driver2
+def main : IO Unit := GojaModel.C01.Driver.main2
